@@ -30,3 +30,4 @@ UNITS = [
     ("C20.calc_init_donnan.boltzmann_excess_and_co_ion_exclusion", IG.unit_calc_init_donnan),
     ("C20.initial_surface_water.layer_water_by_area_and_water_partition", IG.unit_initial_surface_water),
 ]
+from props.c20_ext2 import UNITS as _U2; UNITS = UNITS + _U2
